@@ -25,8 +25,8 @@ owning property counts as "proof obligation broken", see fcv/tables_extract.py):
     theorem that uses the translation states (and thereby documents) what is assumed about them; an unexpected new
     call has no meaning there and the theorem breaks.
 
-Renaming local variables or parameters, reformatting, comments, docstrings and type annotations do not affect the
-theorems (arguments are passed positionally, variables are looked up by whatever name the source uses)."""
+Parameters and local variables are alpha-normalised (v0, v1, … in order of first occurrence), so renaming them,
+reformatting, comments, docstrings and type annotations do not change the translation at all."""
 from __future__ import annotations
 import ast
 
@@ -325,12 +325,60 @@ class Tr:
         raise TranslationError(f"unsupported assignment target: {_dump(target)}")
 
 
+_BINDERS = {"assign": 1, "setIndex": 1, "forIn": 1, "anyOf": 1, "allOf": 1, "comp": 1, "var": 1}
+
+
+def normalise_names(params, body):
+    """alpha-normalisation: parameters and local variables are renamed to v0, v1, … in the order of their first
+    occurrence (parameters first), so that renaming them in the source does not change the translation at all.
+    Attribute names, enum members and external function names are kept (they are interface, not local choice)."""
+    names = {}
+
+    def nm(x):
+        if x not in names:
+            names[x] = f"v{len(names)}"
+        return names[x]
+
+    def walk(t):
+        if isinstance(t, list):
+            return [walk(x) for x in t]
+        if not isinstance(t, tuple) or not t:
+            return t
+        k = t[0]
+        if k == "lit":
+            return t
+        if k == "unpack":
+            rhs = walk(t[2])
+            return (k, [nm(x) for x in t[1]], rhs)
+        if k in ("assign", "forIn"):          # the right-hand side / iterable is evaluated before the binding
+            rest = [walk(x) for x in t[2:3]]
+            x = nm(t[1])
+            return (k, x) + tuple(rest) + tuple(walk(y) for y in t[3:])
+        if k in ("anyOf", "allOf", "comp"):
+            it = walk(t[2])
+            x = nm(t[1])
+            return (k, x, it) + tuple(walk(y) for y in t[3:])
+        if k in ("var", "setIndex"):
+            return (k, nm(t[1])) + tuple(walk(y) for y in t[2:])
+        if k in ("attr",):
+            return (k, walk(t[1]), t[2])
+        if k in ("bin", "cmp", "call", "ext"):
+            return (k, t[1]) + tuple(walk(y) for y in t[2:])
+        if k in ("raise",):
+            return t
+        return (k,) + tuple(walk(y) for y in t[1:])
+
+    new_params = [nm(p) for p in params]
+    return new_params, walk(body), names
+
+
 def translate_function(fn: ast.FunctionDef, enums) -> dict:
     a = fn.args
     if a.vararg or a.kwarg or a.kwonlyargs or a.posonlyargs:
         raise TranslationError(f"{fn.name}: only plain positional parameters are supported")
     tr = Tr(fn, enums)
-    return {"params": [p.arg for p in a.args], "body": tr.block(fn.body)}
+    params, body, names = normalise_names([p.arg for p in a.args], tr.block(fn.body))
+    return {"params": params, "body": body, "names": names}
 
 
 def extract_funcs(src, funcs) -> dict:
@@ -450,6 +498,7 @@ def render_funcs(facts, funcs) -> str:
     for lean, _, _ in funcs:
         f = facts[lean]
         lines.append(f"/-- translated from the source text of `{f['path']}` -/")
+        lines.append("-- " + ", ".join(f"{v} = {k}" for k, v in f["names"].items()))
         lines.append(f"def {lean}Src : Fc.PyLite.Fn := {{")
         lines.append(f"  name := {_s(f['path'].split(': ')[1])}")
         lines.append("  params := [" + ", ".join(_s(p) for p in f["params"]) + "]")
